@@ -44,7 +44,12 @@ func NewConverter(opts *ConvertOptions) *Converter {
 
 	extensions := []goldmark.Extender{}
 	if opts.EnableGFM {
-		extensions = append(extensions, extension.GFM)
+		// GFM = 自动链接 + 删除线 + 任务列表 + 表格；表格只在 EnableTables 时启用，
+		// 否则表格语法会被解析成表格节点却不被渲染，单元格里的文字就丢了
+		extensions = append(extensions, extension.Linkify, extension.Strikethrough, extension.TaskList)
+		if opts.EnableTables {
+			extensions = append(extensions, extension.Table)
+		}
 	}
 	if opts.EnableFootnotes {
 		extensions = append(extensions, extension.Footnote)
